@@ -129,7 +129,10 @@ fn gen_scenario(rng: &mut Rng, thorough: bool) -> Scenario {
         let kleene = rng.chance(2, 5);
         let refs: Vec<usize> = (0..i).collect();
         let pred = if i == 0 {
-            if rng.chance(1, 8) { Some(gen_pred(rng, &[], 0)) } else { None }
+            // a leading `all` with a self-referencing filter: the start event never enters the capture
+            // (Props/C03 leading_all_drops_first_event) - mirrored by the model, exercised here
+            if kleene && rng.chance(1, 3) { Some(gen_selfref_for(rng, 0)) }
+            else if rng.chance(1, 8) { Some(gen_pred(rng, &[], 0)) } else { None }
         } else if kleene && rng.chance(1, 2) { Some(gen_selfref_for(rng, i)) }
         else if rng.chance(1, 2) { Some(gen_pred(rng, &refs, 1)) } else { None };
         steps.push(Step { ty, kleene, pred });
